@@ -48,6 +48,8 @@ def handoff_queue_fifo(ctx):
 
 
 def run(ctx):
+    from .C02 import disabled_does_nothing
+    disabled_does_nothing(ctx)
     # locals / parameters the rules below refer to by name (a rename makes the analysis 'broken', never a violation)
     ctx.anchor(ctx.fn1('Oomd::Engine::Engine::removeDropInConfig'), 'tag')
     ctx.anchor(ctx.fn1('Oomd::Engine::Engine::addDropInConfig'), 'tag', 'unit')
